@@ -428,7 +428,7 @@ func TestVerif_C14(t *testing.T) {
 	})
 
 	// through the handler's retry loop
-	nH := vk.N(6, 40)
+	nH := vk.N(16, 80)
 	vk.ParallelW(16, nH, func(i int) {
 		r := vk.RNG("C14/handler", i)
 		path := filepath.Join(dir, fmt.Sprintf("hh%d.db", i))
@@ -519,6 +519,34 @@ func TestVerif_C14(t *testing.T) {
 		}
 		if v := vk.CheckQuery(model.Live(), []*mocrelay.ReqFilter{{}}, ans); !v.OK {
 			rep.Violation("handler-retry/"+v.Sig, v.Why, map[string]any{"events": shortEvs(evs), "answer": shortEvs(ans)})
+			return
+		}
+		// what was written on the second attempt is found through every access path: by each
+		// single-letter tag the events carry, and by a panel of generated filters
+		var panel [][]*mocrelay.ReqFilter
+		for _, e := range evs {
+			panel = append(panel, []*mocrelay.ReqFilter{{IDs: []string{e.ID}}}, []*mocrelay.ReqFilter{{Authors: []string{e.Pubkey}, Kinds: []int64{e.Kind}}})
+			for _, t := range e.Tags {
+				if len(t) >= 2 && len(t[0]) == 1 && (t[0][0] >= 'a' && t[0][0] <= 'z' || t[0][0] >= 'A' && t[0][0] <= 'Z') {
+					panel = append(panel, []*mocrelay.ReqFilter{{Tags: map[string][]string{t[0]: {t[1]}}}})
+				}
+			}
+		}
+		fg := &vk.FilterGen{R: r, Events: evs, Authors: g.Authors, TimeLo: g.TimeBase, TimeHi: g.TimeBase + g.TimeRange}
+		for k := 0; k < 20; k++ {
+			panel = append(panel, fg.Filters(2))
+		}
+		for _, fs := range panel {
+			ans, err := queryEvent(ctx, db, seed, fs, NoLimit)
+			rep.Eval(1)
+			if err != nil {
+				rep.Violation("query/error", oneline(err.Error()), map[string]any{"filters": vk.JSON(fs)})
+				return
+			}
+			if v := vk.CheckQuery(model.Live(), fs, ans); !v.OK {
+				rep.Violation("handler-retry/"+v.Sig, "after a batch that went through on the handler's second attempt: "+v.Why, map[string]any{"events": shortEvs(evs), "filters": vk.JSON(fs), "answer": shortEvs(ans)})
+				return
+			}
 		}
 		rep.Count("handler_cases", 1)
 	})
